@@ -64,6 +64,9 @@ func init() {
 }
 
 func runC45(c *Ctx) {
+	requireStateless(c, "M1-no-state-between-requests",
+		"(pkg/experimental/hiddenpath.AuthoritativeServer).Segments", "(pkg/experimental/hiddenpath.ForwardServer).Segments",
+		"(pkg/experimental/hiddenpath.RegistryServer).Register")
 	hp := "pkg/experimental/hiddenpath."
 	if v := c.View("(" + hp + "RegistryServer).Register"); v != nil {
 		e := NewE1(c, v.Fn)
